@@ -33,7 +33,7 @@ READERS = {"world::entity::Allocator::is_alive", "world::entity::Allocator::del_
 
 
 def configs(tier):
-    return ["A"] if tier == "quick" else ["A", "F", "N", "FN"]
+    return ["A", "N"] if tier == "quick" else ["A", "F", "N", "FN"]   # N: three independent seeds (C01-g2, C10-g2, C17-g2) hid a defect in a cfg(not(parallel)) twin
 
 
 def run(ctx):
